@@ -524,6 +524,16 @@ def rule_degreeparse(ctx):
     f = ctx.program.func("chord.scale_degree_to_semitone", R)
     s = ctx.S.get(f.qual)
     gets = [c for c in s.calls() if c.method == "get" and c.base is not None and c.base.op == "glob" and c.base.a[0] == "chord.SCALE_DEGREES"]
+    subs = [x for x in s.by_kind("subscript") if x.base.op == "glob" and x.base.a[0] == "chord.SCALE_DEGREES"]
+    if not gets and len({x.index.id for x in subs}) == 1:
+        # SCALE_DEGREES[degree] after a membership test
+        class _G(object):
+            pass
+
+        g0 = _G()
+        g0.args = [subs[0].index]
+        g0.node = subs[0].node
+        gets = [g0]
     need(len(gets) == 1 and gets[0].args, R, "scale_degree_to_semitone: SCALE_DEGREES.get lookup not found")
     key = gets[0].args[0]
     P = tm.param("scale_degree")
